@@ -1,5 +1,5 @@
 PROP = dict(level="model_checking", parts=[
-    cxx("sched", "C10_jobs", ninja=TOOLS, shards=(10, 12), args=["--part", "sched"], timeout=dict(quick=300, thorough=1500)),
+    cxx("sched", "C10_jobs", ninja=TOOLS, shards=(16, 16), args=["--part", "sched"], timeout=dict(quick=300, thorough=1500)),
     py("model", "C10_model.py", ninja=TOOLS, make=["C10_jobs"], shards=(5, 8), timeout=dict(quick=300, thorough=1700)),
     cxx("crash", "C10_jobs", ninja=TOOLS, shards=(6, 8), args=["--part", "crash"], timeout=dict(quick=300, thorough=1500)),
 ])
